@@ -71,7 +71,8 @@ def main():
         if not os.path.isfile(patch) or (only and name not in only):
             continue
         meta = json.load(open(os.path.join(d, "meta.json"))) if os.path.exists(os.path.join(d, "meta.json")) else {}
-        props = ALL if kind == "refactors" else meta.get("check_with") or [meta.get("property") or name[:3]]
+        # refactorings must be silent everywhere; a reverted repair counts as reported if any check reports it
+        props = ALL if kind in ("refactors", "reverts") else meta.get("check_with") or [meta.get("property") or name[:3]]
         try:
             if not apply(patch):
                 results[name] = {"applied": False}
